@@ -33,6 +33,8 @@ partial def parseSeq : List String → Option (List Tok × Option Bool × List S
       | ["U", a] => a.toNat?.map Tok.undelegE
       | ["W"] => some Tok.claimP
       | ["C"] => some Tok.claimP
+      | ["Z", _] => some Tok.touchModule
+      | ["z", _, _] => some Tok.touchModule
       | _ => none
     match tok, parseSeq rest with
     | some tk, some (ts, c, r) => some (tk :: ts, c, r)
